@@ -200,6 +200,10 @@ impl<'a> FullnameSerializer<'a> {
         }
     }
 
+    pub(crate) fn prefixes_for_namespace(&self, namespace_id: NamespaceId) -> Vec<PrefixId> {
+        self.top().prefixes_by_namespace(namespace_id).collect()
+    }
+
     pub(crate) fn is_namespace_known(&self, namespace_id: NamespaceId) -> bool {
         self.top()
             .all_namespaces
